@@ -3,6 +3,7 @@ package main
 import (
 	"fmt"
 	"go/ast"
+	"go/parser"
 	"go/token"
 	"reflect"
 	"strings"
@@ -685,4 +686,35 @@ func genFrame(pkgs map[string]*pkg) {
 	fmt.Fprintf(&b, "Definition global_writes : list (string * string * string) := %s.\n", coqList(globalWrites))
 	fmt.Fprintf(&b, "Definition receiver_writes : list (string * string * string) := %s.\n", coqList(recvWrites))
 	emit("Frame.v", b.String())
+}
+
+// ---------------------------------------------------------------- TestStructs (C16)
+
+func genTestStructs(file string) {
+	var b strings.Builder
+	b.WriteString("From GP Require Import Gen.Structs.\n")
+	if file == "" {
+		b.WriteString("Definition test_structs : list (string * list field_row) := [].\n")
+		emit("TestStructs.v", b.String())
+		return
+	}
+	f, err := parser.ParseFile(fset, file, nil, parser.ParseComments)
+	if err != nil {
+		fail("parse %s: %v", file, err)
+	}
+	var rows []string
+	for _, d := range f.Decls {
+		gd, ok := d.(*ast.GenDecl)
+		if !ok || gd.Tok != token.TYPE {
+			continue
+		}
+		for _, s := range gd.Specs {
+			ts := s.(*ast.TypeSpec)
+			if st, ok := ts.Type.(*ast.StructType); ok {
+				rows = append(rows, fmt.Sprintf("(%s, %s)", coqStr(ts.Name.Name), coqList(structRows(st))))
+			}
+		}
+	}
+	fmt.Fprintf(&b, "Definition test_structs : list (string * list field_row) := %s.\n", coqList(rows))
+	emit("TestStructs.v", b.String())
 }
